@@ -391,7 +391,35 @@ func (w *World) compare(i int, p *Post) (*Divergence, bool) {
 			return w.div(i, "shape", fmt.Sprintf("h%d has %d elements, expected %d", h+1, len(els), len(tr.Cells))), false
 		}
 		ev := w.evFor(&tr)
+		al := p.Allocs[tr.Al-1]
+		masked := len(al.Mask) > 0
+		if !al.MOpen && masked != t.IsMasked() && len(tr.Cells) > 0 {
+			return w.div(i, "mask-presence", fmt.Sprintf("h%d IsMasked()=%v, expected %v", h+1, t.IsMasked(), masked)), false
+		}
 		for k, cell := range tr.Cells {
+			if masked {
+				mb, open := w.maskBit(&al, cell)
+				if al.MOpen {
+					if mb || open {
+						w.Stats.OpenPos++
+						continue // masked in an operand: the value is unconstrained
+					}
+					goto value
+				}
+				got, err := t.MaskAt(coordOf(k, tr.Shape)...)
+				w.Stats.Compared++
+				if err != nil {
+					return w.div(i, "mask", fmt.Sprintf("h%d MaskAt(%v): %v", h+1, coordOf(k, tr.Shape), err)), false
+				}
+				if !open && got != mb {
+					return w.div(i, "mask", fmt.Sprintf("h%d mask at element %d (coord %v) is %v, expected %v", h+1, k, coordOf(k, tr.Shape), got, mb)), false
+				}
+				if mb && al.Kind == "l" {
+					w.Stats.OpenPos++
+					continue // the value under a masked position of a result is unconstrained
+				}
+			}
+		value:
 			term := w.heapTerm(p, cell)
 			exp := ev.Eval(term)
 			w.Stats.Compared++
@@ -484,6 +512,23 @@ func (w *World) noteTags(st *Step) {
 			}
 		}
 	}
+}
+
+// maskBit evaluates the model's mask entry of a cell.
+func (w *World) maskBit(al *Alloc, cell int) (bit bool, open bool) {
+	raw := al.Mask[cell-al.Start]
+	if len(raw) > 0 && raw[0] != '[' {
+		return string(raw) == "1", false
+	}
+	t, err := vals.ParseTerm(raw)
+	if err != nil {
+		panic(err)
+	}
+	v := w.Ev.Eval(t)
+	if v.Open {
+		return false, true
+	}
+	return v.V.(bool), false
 }
 
 func (w *World) evFor(tr *TRec) *vals.Evaluator {
